@@ -110,11 +110,21 @@ def chunks(seq, size):
         yield seq[i:i + size]
 
 
-def checked_mc(ctx, module, cfg, name, expect):
+JVM_SMALL = {"JAVA_TOOL_OPTIONS": "-XX:ParallelGCThreads=2 -XX:TieredStopAtLevel=1"}   # short runs: no C2 compiler
+JVM_BIG = {"JAVA_TOOL_OPTIONS": "-XX:ParallelGCThreads=2"}
+JVM_JUDGE = {"JAVA_TOOL_OPTIONS": "-XX:ParallelGCThreads=2"}
+
+
+def checked_mc(ctx, module, cfg, name, expect, small=False):
     """ctx.model_check, but a run expected to pass must really have completed without error: core only records
-    res.ok.  A JVM killed by the kernel (out of memory on the shared machine) is retried once."""
+    res.ok.  A JVM killed by the kernel (out of memory on the shared machine) is retried once.
+    The quick tier is budgeted in CPU-seconds: 16 TLC workers, 16 GC threads and the C2 compiler cost 30 CPU-s on a
+    run of 30 000 states that needs 6; quick runs use 4 workers / 2 GC threads (short ones: C1 compiler only)."""
+    kw = {}
+    if ctx.tier != "thorough":
+        kw = dict(workers=4, env=JVM_SMALL if (small or expect != "ok") else JVM_BIG)
     for attempt in (1, 2):
-        res = ctx.model_check(module, dict(cfg), name if attempt == 1 else name + "_retry", expect=expect)
+        res = ctx.model_check(module, dict(cfg), name if attempt == 1 else name + "_retry", expect=expect, **kw)
         if expect != "ok":
             return res
         complete = "Model checking completed" in res.out
@@ -134,7 +144,7 @@ def nproc_for(jobs):
     """worker processes for a batch: a process costs ~10 CPU-s to start (imports + JIT), a numpy job ~1.5 ms,
     a dask job ~0.3 s."""
     cost = sum(100 if j.get("backend") == "dask" else (len(j["steps"]) if j.get("fn") == "seq" else 1) for j in jobs)
-    return max(1, min(12, (cost + 3999) // 4000))
+    return max(1, min(8, (cost + 4999) // 5000))
 
 
 def strip(case):
